@@ -114,9 +114,9 @@ package selector
 //@ // away); slice segments own their two bounds (no two segments share them); a quoted field segment is a field segment
 //@ func Parse
 //@   // what the parser's regular expressions guarantee about a matching text (read off the patterns; trusted)
-//@   given forall s string :: {reMatches(fieldRegex, s)} reMatches(fieldRegex, s) ==> len(s) >= 2 && s[0] == '.' && s[1] != '"'
-//@   given forall s string :: {reMatches(sliceRegex, s)} reMatches(sliceRegex, s) ==> strings_contains(s, ":") && len(s) >= 1 && s[0] != '"'
-//@   given forall s string :: {reMatches(indexRegex, s)} reMatches(indexRegex, s) ==> len(s) >= 1 && s[0] != '"'
+//@   given reSource(fieldRegex) == `^\.[a-zA-Z_\p{L}][a-zA-Z0-9$_\p{L}\-]*$` ==> forall s string :: {reMatches(fieldRegex, s)} reMatches(fieldRegex, s) ==> len(s) >= 2 && s[0] == '.' && s[1] != '"'
+//@   given reSource(sliceRegex) == `^((\-?\d+:\-?\d*)|(\-?\d*:\-?\d+))$` ==> forall s string :: {reMatches(sliceRegex, s)} reMatches(sliceRegex, s) ==> strings_contains(s, ":") && len(s) >= 1 && s[0] != '"'
+//@   given reSource(indexRegex) == `^-?\d+$` ==> forall s string :: {reMatches(indexRegex, s)} reMatches(indexRegex, s) ==> len(s) >= 1 && s[0] != '"'
 //@   ensures [C09] total: true
 //@   ensures [C14] nonempty: result1 == nil ==> len(result0) > 0
 //@   ensures [C14,C12] wf: result1 == nil ==> (forall i int :: 0 <= i && i < len(result0) ==> wfSeg(result0[i]))
